@@ -155,6 +155,8 @@ func Rich(t *rapid.T, o RichOpts) play.History {
 	if rapid.Bool().Draw(t, "version?") {
 		h.Cfg.Version = "16.1"
 	}
+	h.Cfg.OptSeed = rapid.IntRange(0, 1000).Draw(t, "option-order")
+	h.Cfg.CustomCaches = rapid.IntRange(0, 3).Draw(t, "custom-caches") == 2
 	if o.Auth && rapid.IntRange(0, 3).Draw(t, "auth?") == 0 {
 		h.Cfg.Auth = &script.AuthSpec{User: "u", Pass: "pw"}
 	}
